@@ -107,4 +107,4 @@ def run(rep, wd, tier, seed):
 
 
 def replay(rep, wd, payload):
-    c07.replay(rep, wd, payload)
+    isocheck.replay(rep, wd, payload, owner, 'framing')
